@@ -99,7 +99,8 @@ sc_iniparser_getint (dictionary * d, const char *key, int notfound,
   long                l;
 
   str = iniparser_getstring (d, key, sc_iniparser_invalid_key);
-  if (str == sc_iniparser_invalid_key) {
+  if (str == sc_iniparser_invalid_key || str == NULL) {
+    /* a section heading of that name has no value */
     return notfound;
   }
   errno = 0;
